@@ -34,7 +34,7 @@ def evaluate(lines):
             if f[1] in ("timeout", "stale-helper", "two-waiters", "two-timeouts"):
                 if not (t_us - 2000 <= el <= t_us + SLACK_US):
                     bad.append("WaitTimeout (returned outside [timeout, timeout+slack]): " + l)
-            else:  # signalled after 5 ms, timeout much later: must return promptly
+            else:  # signalled after 5 ms (or by a signaller already contending for the lock), timeout much later: must return promptly
                 if not (el <= 5000 + SLACK_US):
                     bad.append("WaitTimeout (did not return promptly after the signal): " + l)
     return bad
@@ -65,7 +65,7 @@ def run(ctx):
         "distinct_nontrivial": int(st.get("cases", 0)) + len(other) - 2,
         "rule": "UInt64ToString: 0, 10^k-1, 10^k, 10^k+1 (k<=19), 2^63±1, 2^64-1, random full-width and random shifted values, compared with the extracted model "
                 "(non-trivial = every value except 0 and 1). MapClear: maps of 0..1000 entries with uint64, string and float64 keys (0-2 NaN keys), cleared then re-used. "
-                "Assume/Assert: both arguments. WaitTimeout: timeouts 0,1,10,50 ms unsignalled; Signal/Broadcast after 5 ms with timeouts 200/1000 ms; a second goroutine already queued on the same cond (plain Wait, or WaitTimeout with a much longer timeout) with timeouts 0,10,50 ms; "
+                "Assume/Assert: both arguments. WaitTimeout: timeouts 0,1,10,50 ms unsignalled; Signal/Broadcast after 5 ms with timeouts 200/1000 ms; a signaller already spinning on the lock when the wait begins (12 rounds each of Signal and Broadcast, timeout 1500 ms); a second goroutine already queued on the same cond (plain Wait, or WaitTimeout with a much longer timeout) with timeouts 0,10,50 ms; "
                 "a timed-out wait followed by a late broadcast and a second wait (stale helper); lock probed with TryLock, then re-lockability within 500 ms.",
         "samples": (lines or [])[:3] + other[:2] + other[-4:],
         "tostring_cases": int(st.get("cases", 0)), "tostring_length_distribution": st.get("lengths", ""),
